@@ -11,7 +11,16 @@ package fiber
 // What a pooled object may carry
 // ---------------------------------------------------------------------------------------------
 
-// A Redirect in redirectPool carries nothing of its previous user.
+// A Redirect in redirectPool carries nothing of its previous user: EVERY field of the struct is in the state the pool
+// constructor gives it (c, messages, status - all three fields of Redirect are named; the entries of messages beyond its
+// length are never read: With/WithInput only append whole elements).
+// The contract language cannot say "every field, also one added later" (iszero() reads the one-cell heap of an opaque
+// foreign struct; a struct of this module is a bundle of per-field heaps and clauses name fields one by one). Two things
+// stand in for that: (1) data that a Redirect method keeps for the next user must live somewhere - the clauses
+// old-input-map-made-by-this-call / old-input-map-empty-before-binding of (*Redirect).WithInput (zz_contracts_c12_verif.go)
+// demand that the container the request data is bound into is made by that call, so it cannot live with the pooled
+// object; (2) the bounded stand-in TestFVCBoundedC05PooledObjectFields enumerates the struct fields by reflection and
+// fails for a field this macro does not name or that is not empty after release().
 //@ macro redirectClean(r) = r.status == 302 && len(r.messages) == 0 && r.c == nil
 
 // A DefaultCtx in app.pool: no route, request, binder, redirect, flash messages or view bindings of the
@@ -50,14 +59,24 @@ package fiber
 //@   modifies r.status, r.messages, r.c
 //@   ensures pool-clean: redirectClean(r)
 
+// the address of the package variable redirectPool (a spec constant, as the binder pools in zz_contracts_bind_verif.go:
+// the bare name in a clause denotes the VALUE stored in the variable)
+//@ fn theRedirectPool() ref = redirectPool
+// ReleaseRedirect: the Put side of the redirect pool - what goes into redirectPool is the object that was just scrubbed
+// (release first, then Put of the same object into its own pool), in the pool's clean state.
 //@ func ReleaseRedirect
 //@   modifies r.status, r.messages, r.c
 //@   atcall @sync.(*Pool).Put: pool-invariant: redirectClean(r)
+//@   atcall @sync.(*Pool).Put: released-first-then-put-into-its-own-pool: called((*Redirect).release) && typeis(x, *Redirect) && as(x, *Redirect) == r && p == theRedirectPool()
 //@   ensures pool-clean: redirectClean(r)
+//@   ensures handed-back: called(@sync.(*Pool).Put)
 
+// AcquireRedirect: the Get side - the caller gets what redirectPool handed out (clean by the pool assumption above).
 //@ func AcquireRedirect
 //@   pure
+//@   atcall @sync.(*Pool).Get: own-pool: p == theRedirectPool()
 //@   ensures clean: result != nil && redirectClean(result)
+//@   ensures what-the-pool-gave: typeis(last(@sync.(*Pool).Get), *Redirect) && result == as(last(@sync.(*Pool).Get), *Redirect)
 
 // c.Redirect(): the redirect object of THIS context; the first call of a request gets a clean one.
 //@ func (*DefaultCtx).Redirect
@@ -304,7 +323,10 @@ package fiber
 //@   pure
 //@   requires [C07] wf: c.req != nil && c.req.ctx == c
 //@   ensures [C07] helper-of-this-context: result != nil && as(result, *DefaultReq).ctx == c
+// (what the forwarders of req.go require - boundHelper, zz_contracts_reqres_verif.go - follows for a context attached to a request)
+//@   ensures [C07] bound-helper-of-a-live-context: liveCtx(c) ==> typeis(result, *DefaultReq) && boundHelper(as(result, *DefaultReq))
 //@ func (*DefaultCtx).Res
 //@   pure
 //@   requires [C07] wf: c.res != nil && c.res.ctx == c
 //@   ensures [C07] helper-of-this-context: result != nil && as(result, *DefaultRes).ctx == c
+//@   ensures [C07] bound-helper-of-a-live-context: liveCtx(c) ==> typeis(result, *DefaultRes) && boundHelper(as(result, *DefaultRes))
